@@ -8,6 +8,7 @@ import (
 	"net/http"
 	"os"
 	"path/filepath"
+	"sync"
 	"time"
 
 	"github.com/johannesboyne/gofakes3"
@@ -65,8 +66,11 @@ type Opts struct {
 	Dir           string // scratch dir for disk-backed kinds; "" => created
 	BoltSync      bool   // true: real fsync (C15)
 	FixedTime     time.Time
-	VersionSeed   int64
-	ExistingDir   bool // reopen: do not wipe Dir
+	// BackwardsClock gives the front end (not the backend) a time source that steps one second
+	// back with every reading: nothing the server orders may depend on the clock being monotonic.
+	BackwardsClock bool
+	VersionSeed    int64
+	ExistingDir    bool // reopen: do not wipe Dir
 }
 
 type Server struct {
@@ -198,6 +202,9 @@ func (s *Server) buildFaker() {
 	if !o.FixedTime.IsZero() {
 		opts = append(opts, gofakes3.WithTimeSource(gofakes3.FixedTimeSource(o.FixedTime)))
 	}
+	if o.BackwardsClock {
+		opts = append(opts, gofakes3.WithTimeSource(&backwardsClock{at: time.Date(2030, 1, 1, 0, 0, 0, 0, time.UTC)}), gofakes3.WithTimeSkewLimit(0))
+	}
 	opts = append(opts, gofakes3.WithIntegrityCheck(!o.NoIntegrity))
 	if o.AutoBucket {
 		opts = append(opts, gofakes3.WithAutoBucket(true))
@@ -315,3 +322,18 @@ func (s *Server) DiskTree() map[string]string {
 	})
 	return out
 }
+
+// backwardsClock is a gofakes3.TimeSource that goes back one second per reading.
+type backwardsClock struct {
+	mu sync.Mutex
+	at time.Time
+}
+
+func (c *backwardsClock) Now() time.Time {
+	c.mu.Lock()
+	defer c.mu.Unlock()
+	c.at = c.at.Add(-time.Second)
+	return c.at
+}
+
+func (c *backwardsClock) Since(t time.Time) time.Duration { return c.Now().Sub(t) }
